@@ -404,7 +404,7 @@ def bufmut_put_u64(ctx):
     return _append(ctx, [simp(z3.Extract(63 - 8 * i, 56 - 8 * i, t)) for i in range(8)])
 
 
-@contract(r' as (?:bytes::)?BufMut>::put_slice$|^(?:bytes::)?BytesMut::extend_from_slice$|^<(?:bytes::)?BytesMut as Extend<&u8>>::extend(?:::<.*>)?$|^Vec::<u8>::extend_from_slice$|^String::push_str$')
+@contract(r' as (?:bytes::)?BufMut>::put_slice$|^(?:bytes::)?BytesMut::extend_from_slice$|^<(?:bytes::)?BytesMut as Extend<&u8>>::extend(?:::<.*>)?$|^Vec::<u8>::extend_from_slice$|^String::push_str$|^<(?:std::string::)?String as (?:std::ops::)?AddAssign<&str>>::add_assign$')
 def bufmut_put_slice(ctx):
     src = BufLoc(ctx.ex, ctx.st, ctx.args[1]).val
     return _append(ctx, src)
@@ -899,7 +899,7 @@ def option_from_residual(ctx):
     return mk_option(ctx.ex, None)
 
 
-@contract(r'^<Result<.*> as (?:easy_error::)?ResultExt<.*>>::context(?:::<.*>)?$|^Result::<.*>::map_err::<.*>$')
+@contract(r'^<Result<.*> as (?:easy_error::)?ResultExt<.*>>::(?:with_)?context(?:::<.*>)?$|^Result::<.*>::map_err::<.*>$')
 def result_context(ctx):
     ex, st = ctx.ex, ctx.st
     v, _ = to_enum(ex, st, ctx.args[0])
